@@ -13,7 +13,8 @@ not part of any registered check.
 import json, os, subprocess, sys, tempfile, shutil, re
 
 ROOT = os.path.dirname(os.path.dirname(os.path.abspath(__file__)))
-ENV = dict(os.environ, GOFLAGS="-mod=mod", GOPROXY="off", GOSUMDB="off", GOTOOLCHAIN="local", VERIF_ROOT=ROOT)
+_mf = os.environ.get("VERIF_MODFILE")
+ENV = dict(os.environ, GOFLAGS="-mod=mod" + ((" -modfile=" + _mf) if _mf else ""), GOPROXY="off", GOSUMDB="off", GOTOOLCHAIN="local", VERIF_ROOT=ROOT)
 
 def main():
     pid = sys.argv[1]
@@ -65,7 +66,7 @@ def main():
                 if m and any(m.group(1).endswith(w) for w in want) and m.group(7) == "0":
                     unc.setdefault(m.group(1), set()).update(range(int(m.group(2)), int(m.group(4)) + 1))
             for f, lines in sorted(unc.items()):
-                src = open(os.path.join("/repo", f)).read().splitlines()
+                src = open(os.path.join(os.environ.get("VERIF_REPO", "/repo"), f)).read().splitlines()
                 print("---- uncovered lines of " + f)
                 prev = None
                 for n in sorted(lines):
